@@ -5,6 +5,7 @@ From SF Require Import Model.Bytes Model.F64 Model.ShapeType Model.Shapes Model.
   Model.Construct Model.Writer Model.Prog Model.Decode Model.Reader Spec.Esri Spec.Denote Spec.Layout.
 From SF Require Import Proofs.ReaderSeq Proofs.WriterInv Proofs.EncodeRef Proofs.LayoutConf Proofs.RoundTrip Proofs.OnRead
   Proofs.IndexReader Proofs.IndexFiles Proofs.PolygonCtor Proofs.F64Exact.
+From SF Require Import Model.Paths Proofs.PathsProofs.
 From SF Require Import Properties.C02.
 Open Scope Z_scope.
 
@@ -126,4 +127,79 @@ Proof.
   cbv zeta. split.
   - repeat constructor; unfold f64_ok, two64, ex_nan; cbn; lia.
   - split; [vm_compute; reflexivity|]. split; [repeat constructor|]. split; vm_compute; reflexivity.
+Qed.
+
+(** ** By path (Model/Paths.v): `ShapeWriter::from_path`, then `ShapeReader::from_path`
+    Whatever the directory held before — older and longer files under the same
+    names included — a history written through `ShapeWriter::from_path(n)` and
+    opened again through `ShapeReader::from_path(n)` is read through the index
+    the writer left, every reader call returning what the abstract reader over
+    [map on_read ss] returns; every other file of the directory is what it was.
+    ([write_by_path] is None only for a name whose own extension is "shx".) *)
+Theorem C01_roundtrip_by_path : forall (f : dir) (n : fname) (req : option shape_type) (cs : list wcall) (e : wending)
+    (rcs : list rcall) (rs : list (res unit)) (f' : dir),
+  write_by_path f n cs e = Some (rs, f') ->
+  Forall call_wf cs ->
+  let ss := accepted_acc [] cs in
+  FileFits ss -> RecordsFit ss -> (req = None \/ req = Some (file_type ss)) -> Forall rcall_wf rcs ->
+  exists shp shx idx,
+    sr_open f' n = OOpen shp (Some shx) /\
+    (forall m, m <> n -> m <> with_ext n SHX -> fs_get f' m = fs_get f m) /\
+    fst (run read_index_file (src_of shx)) = Ok idx /\ zlen idx = zlen ss /\
+    exists s',
+      run (st <-- r_with_shx idx ;; x <-- r_calls req st rcs ;; Ret (r_hdr st, fst x)) (src_of shp)
+      = (Ok (header_of (file_type ss) (box8 (h_box (final_hdr ss))) (file_words ss),
+             abs_calls (map on_read ss) 0 rcs), s').
+Proof.
+  intros f n req cs e rcs rs f' Hw Hwf ss Hf Hrf Hreq Hr.
+  unfold write_by_path in Hw. destruct (name_eqb (with_ext n SHX) n) eqn:En; [discriminate|].
+  assert (Hn : with_ext n SHX <> n) by (intros H; apply name_eqb_eq in H; congruence).
+  destruct (C01_roundtrip_index req cs e rcs Hwf Hf Hrf Hreq Hr) as (idx & Hi & Hl & s' & Hrun).
+  destruct (run_history true world0 cs e) as [rs0 w] eqn:Eh. injection Hw as <- <-. cbn [snd] in Hi, Hrun.
+  exists (fst (files w)), (snd (files w)), idx.
+  split; [exact (open_after_write f n Hn w)|].
+  split; [intros m H1 H2; exact (write_frame f n w m H1 H2)|].
+  split; [exact Hi|split; [exact Hl|exists s'; exact Hrun]].
+Qed.
+Print Assumptions C01_roundtrip_by_path.
+
+(** Once the index file is removed the reader opens without index, on the same bytes
+    (to which [C01_roundtrip_seq] applies). *)
+Theorem C01_by_path_without_index : forall (f : dir) (n : fname) (cs : list wcall) (e : wending) rs f',
+  dir_ok f -> write_by_path f n cs e = Some (rs, f') ->
+  sr_open (fs_remove f' (with_ext n SHX)) n = OOpen (fst (files (snd (run_history true world0 cs e)))) None.
+Proof.
+  intros f n cs e rs f' Hok Hw. unfold write_by_path in Hw. destruct (name_eqb (with_ext n SHX) n) eqn:En; [discriminate|].
+  assert (Hn : with_ext n SHX <> n) by (intros H; apply name_eqb_eq in H; congruence).
+  destruct (run_history true world0 cs e) as [rs0 w] eqn:Eh. injection Hw as <- <-. cbn [snd].
+  exact (open_without_shx f n Hn w Hok).
+Qed.
+Print Assumptions C01_by_path_without_index.
+
+(** A second shapefile written afterwards next to the first (another name with
+    the same extension) leaves the first one as it was. *)
+Theorem C01_second_shapefile_harmless : forall (f : dir) (p q ext : fname) cs1 e1 cs2 e2 rs1 f1 rs2 f2,
+  extension p = Some ext -> extension q = Some ext -> p <> q ->
+  write_by_path f p cs1 e1 = Some (rs1, f1) -> write_by_path f1 q cs2 e2 = Some (rs2, f2) ->
+  sr_open f2 p = sr_open f1 p.
+Proof.
+  intros f p q ext cs1 e1 cs2 e2 rs1 f1 rs2 f2 Hp Hq Hne H1 H2.
+  unfold write_by_path in H1, H2.
+  destruct (name_eqb (with_ext p SHX) p) eqn:Ep; [discriminate|].
+  destruct (name_eqb (with_ext q SHX) q) eqn:Eq; [discriminate|].
+  assert (Hx : with_ext p SHX <> p) by (intros H; apply name_eqb_eq in H; congruence).
+  destruct (run_history true world0 cs1 e1) as [r1 w1]. destruct (run_history true world0 cs2 e2) as [r2 w2].
+  injection H1 as <- <-. injection H2 as <- <-.
+  rewrite (second_shapefile_harmless f p q ext w1 w2 Hp Hq Hne Hx). symmetry. exact (open_after_write f p Hx w1).
+Qed.
+Print Assumptions C01_second_shapefile_harmless.
+
+(** The premises are satisfiable: "a.shp" in a directory holding a stale, longer "a.shx". *)
+Example C01_by_path_example :
+  let f := [([97; 46; 115; 104; 120], FBytes (repeat_Z 7 500))] in
+  exists rs f', write_by_path f [97; 46; 115; 104; 112] [] EDrop = Some (rs, f') /\ dir_ok f /\
+    extension [97; 46; 115; 104; 112] = Some SHP /\
+    match fs_get f' [97; 46; 115; 104; 120] with Some (FBytes b) => zlen b = 100 | _ => False end.
+Proof.
+  eexists; eexists. split; [vm_compute; reflexivity|]. split; [repeat constructor; cbn; tauto|]. split; reflexivity.
 Qed.
